@@ -31,7 +31,7 @@ def configs(tier):
     absv = ["60", "150"]
     pct = ["10", "25", "50", "75", "90", "100", "110", "-5"]
     sci = [("a", "1.5e+2"), ("p", "2.5e+1"), ("p", "5e-1"), ("a", "6e-1"), ("p", "1e-3")]  # signed exponents
-    absv += ["1e3", "0.5", "400000"]
+    absv += ["1e3", "0.5", "400000", "1234."]  # '1234.' is the spelling of the Mixture docstring; it ends in the separator's characters
     pct += ["33.3", "12.5", "2.5"]
     if tier == "thorough":
         absv += ["12345.678"]
@@ -128,7 +128,49 @@ def ext_options(cfg):
     return out
 
 
+def eval_mixture_histories(res, data):
+    """explicit-state search over setter calls on ONE Mixture object (the object a System assigns its total to): after
+    every call the value the user wrote is still there and absolute = relative / 100 x system"""
+    import itertools as it
+
+    import gbigsmiles
+
+    totals = [1000.0, 2000.0, 1000.0 / 3.0]
+    n = 0
+    states = set()
+    for text, kind, val in data["mixtures"]:
+        for depth in (1, 2, 3):
+            for seq in it.product(range(len(totals)), repeat=depth):
+                m = gbigsmiles.Mixture(text)
+                n += 1
+                for step, ti in enumerate(seq):
+                    m.system_mass = totals[ti]
+                    str(m)
+                    res["transitions"] += 1
+                    a, r, s_ = m.absolute_mass, m.relative_mass, m.system_mass
+                    states.add((text, round(float(a), 6) if a is not None else None, round(float(r), 6) if r is not None else None, s_))
+                    written = r if kind == "p" else a
+                    bad = None
+                    if written is None or float(written) != val:
+                        bad = f"the written {'percentage' if kind == 'p' else 'mass'} {val} now reads {written!r}"
+                    elif s_ != totals[ti]:
+                        bad = f"system mass reads {s_!r}"
+                    elif a is None or r is None or abs(float(a) - float(r) / 100.0 * totals[ti]) > 1e-9 * max(1.0, abs(float(a))):
+                        bad = f"absolute {a!r} is not {r!r} % of {totals[ti]!r}"
+                    if bad:
+                        viol(res, f"C12|mixture-history|{'percent' if kind == 'p' else 'absolute'}-written|{'first' if step == 0 else 'later'}-assignment", f"Mixture({text!r}) after system_mass := {[totals[i] for i in seq[: step + 1]]}: {bad}", {"text": text, "seq": list(seq)})
+                        break
+    res["states"] = len(states)
+    res["traces"] = n
+    res["evals"] = n
+    res["nontrivial"] = ["mixture-histories", n]
+    res["outcomes"] = ["mixture-histories"]
+    res["sample"] = {"mixtures": [m[0] for m in data["mixtures"]], "histories": n}
+    return res
+
+
 def enumerate_cases(tier, seed):
+    yield ("mixture-histories", {"mixtures": [[".|25%|", "p", 25.0], [".|250|", "a", 250.0], [".|2.5e1%|", "p", 25.0], [".|1234.|", "a", 1234.0], [".|33.3%|", "p", 33.3], [".|0.1|", "a", 0.1]]})
     cfgs = list(configs(tier))
     step = 150
     for lo in range(0, len(cfgs), step):
@@ -146,6 +188,8 @@ def eval_case(kind, data):
     import numpy as np
 
     res = new_result()
+    if kind == "mixture-histories":
+        return eval_mixture_histories(res, data)
     classes = set()
     nconv = [0]
     for cfg in data["cfgs"]:
@@ -227,6 +271,14 @@ def eval_case(kind, data):
                 viol(res, f"C12|percent-sum|{shape}", f"System({text!r}, {ext}): percentages {rel} do not sum to 100", {"text": text, "ext": ext})
             elif not all(close(a, m) for a, m in zip(ab, masses)) or not all(close(r, 100 * m / S) for r, m in zip(rel, masses)):
                 viol(res, f"C12|component-mass|{shape}", f"System({text!r}, {ext}): masses {ab} / percentages {rel}, exact {[float(m) for m in masses]}", {"text": text, "ext": ext})
+            # every value the user wrote is kept as written (exactly: it is stored, not recomputed)
+            for (k_, v_), r_, a_ in zip(cfg, rel, ab):
+                if k_ == "p" and r_ is not None and float(r_) != float(v_):
+                    viol(res, f"C12|written-percentage-not-kept|{shape}", f"System({text!r}, {ext}): the component written {v_}% reports {r_!r}%", {"text": text, "ext": ext})
+                    break
+                if k_ == "a" and a_ is not None and float(a_) != float(v_):
+                    viol(res, f"C12|written-mass-not-kept|{shape}", f"System({text!r}, {ext}): the component written with mass {v_} reports {a_!r}", {"text": text, "ext": ext})
+                    break
             # print -> parse keeps the masses
             try:
                 c = str(obj)
